@@ -187,6 +187,10 @@ class SimNet:
         if getattr(h, "no_etag", False):
             base.pop("etag")
         rng = headers.get("Range") or headers.get("range")
+        ifr = headers.get("If-Range") or headers.get("if-range")
+        if rng is not None and ifr is not None and ifr.strip() != etag and "etag" in base:
+            # RFC 7233 section 3.2: the validator does not match the current representation -> the Range header is ignored
+            rng = None
         if rng is None:
             return 200, "OK", dict(base, **{"content-length": str(len(blob))}), blob
         m = re.match(r"^bytes=(\d+)-(\d*)$", rng.strip())
